@@ -24,7 +24,7 @@ def alphabet():
             if kind != "set" and not s:
                 continue
             ops.append((kind + " " + " ".join(map(str, s))).strip())
-    ops += ["raise %d" % s for s in SIGS] + ["dispatch", "drop", "appblock"]
+    ops += ["raise %d" % s for s in SIGS] + ["raiset %d" % s for s in SIGS] + ["dispatch", "drop", "appblock"]
     return ops
 
 
@@ -43,7 +43,7 @@ def gen_cases(tier, seed, search):
         n = rnd.randrange(3, 13)
         seq = []
         for _ in range(n):
-            seq.append(rnd.choice(ops) if rnd.random() < 0.55 else rnd.choice(["raise %d" % rnd.choice(SIGS), "dispatch"]))
+            seq.append(rnd.choice(ops) if rnd.random() < 0.55 else rnd.choice(["raise %d" % rnd.choice(SIGS), "raiset %d" % rnd.choice(SIGS), "dispatch"]))
         cases.append(["case r%d" % i, "new " + " ".join(map(str, rnd.choice(SUBSETS[1:])))] + seq + ["dispatch", "end"])
     return cases, maxlen
 
@@ -64,7 +64,7 @@ def split_cases(lines):
 
 def spec_c19(case, trace):
     """C19's clauses on the implementation's answers, from the operations alone (no model involved)."""
-    alive, mask, pending = False, set(), set()
+    alive, mask, pending, pending_t = False, set(), set(), set()     # process-wide and thread-directed pending queues
     app = set()          # blocked by the application itself, never given to the source
     handled = {s: 0 for s in SIGS}
     reported = []
@@ -82,32 +82,39 @@ def spec_c19(case, trace):
         elif w[0] == "add" and alive:
             mask |= args
         elif w[0] == "remove" and alive:
-            for s in args & mask & pending:        # a pending instance of a signal that stops being configured goes to the handler
-                handled[s] += 1
-                pending.discard(s)
+            for q in (pending, pending_t):
+                for s in args & mask & q:          # a pending instance of a signal that stops being configured goes to the handler
+                    handled[s] += 1
+                    q.discard(s)
             mask -= args
         elif w[0] == "set" and alive:
-            for s in (mask - args) & pending:
-                handled[s] += 1
-                pending.discard(s)
+            for q in (pending, pending_t):
+                for s in (mask - args) & q:
+                    handled[s] += 1
+                    q.discard(s)
             mask = set(args)
         elif w[0] == "drop" and alive:
-            for s in mask & pending:
-                handled[s] += 1
-                pending.discard(s)
+            for q in (pending, pending_t):
+                for s in mask & q:
+                    handled[s] += 1
+                    q.discard(s)
             alive, mask = False, set()
-        elif w[0] == "raise":
+        elif w[0] in ("raise", "raiset"):
             s = int(w[1])
             if alive and s in mask:
-                pending.add(s)                      # coalesces
+                (pending if w[0] == "raise" else pending_t).add(s)      # coalesces within its queue
             else:
                 handled[s] += 1                     # normal disposition: the process handler
         elif w[0] == "appblock":
             app = {23}
         elif w[0] == "dispatch" and alive:
+            # every pending instance exactly once: the thread's queue first, then the process's, each ascending
+            for s in sorted(pending_t & mask):
+                reported.append(s)
             for s in sorted(pending & mask):
                 reported.append(s)
             pending -= mask
+            pending_t -= mask
         if sorted(got_blocked) != sorted((mask if alive else set()) | app):
             return "after `%s` the thread blocks %s; the configured set is %s and the application itself blocks %s" % (
                 op, got_blocked, sorted(mask if alive else []), sorted(app))
